@@ -43,6 +43,13 @@ Theorem C01_roundtrip : forall es,
 Proof. exact parse_stream_encode. Qed.
 Print Assumptions C01_roundtrip.
 
+(* ... and conversely the strict parser accepts nothing but such encodings *)
+Theorem C01_parse_sound : forall bs es,
+  Forall byte bs -> parse_stream bs = POk es ->
+  bs = STREAM_HEADER ++ flat_map encode es /\ Forall wf_uev es.
+Proof. exact parse_stream_sound. Qed.
+Print Assumptions C01_parse_sound.
+
 Theorem C01_encoding_injective : forall es1 es2,
   Forall wf_uev es1 -> Forall wf_uev es2 -> flat_map encode es1 = flat_map encode es2 -> es1 = es2.
 Proof. exact encode_injective. Qed.
@@ -96,6 +103,15 @@ Theorem C01_completed_run_only_accepted_calls : forall fx cap ops clock s log,
   run fx cap ops clock = ROk (s, log) -> forallb (api_okb cap) ops = true.
 Proof. exact completed_run_only_accepted_calls. Qed.
 Print Assumptions C01_completed_run_only_accepted_calls.
+
+(* a program of accepted calls followed by flush + free always completes, given 5 clock values per call:
+   the hypothesis `run ... = ROk` of the theorems above is satisfiable by every such program *)
+Theorem C01_accepted_programs_complete : forall fx cap ops clock,
+  64 <= cap -> forallb op_wfb ops = true -> existsb is_free ops = false -> forallb (api_okb cap) ops = true ->
+  (5 * length ops + 5 <= length clock)%nat ->
+  exists s log, run fx cap (ops ++ [Flush; Free]) clock = ROk (s, log).
+Proof. exact run_total_free. Qed.
+Print Assumptions C01_accepted_programs_complete.
 
 Theorem C01_call_after_free_aborts : forall fx cap ops clock s log o,
   run fx cap (ops ++ [Free]) clock = ROk (s, log) -> clk s <> [] -> step fx cap o (s, log) = RAbort.
